@@ -106,3 +106,52 @@ func Harness_C17_Wrappers() {
 	b, d, s, m, ok2 := lim.Read(w.hash)
 	verifAssert(ok2 == stored && (!ok2 || w.matches(b, d, s, m)), "the depth-limited table returns what the inner table holds")
 }
+
+// C17 (concurrency): two writers and a reader on one table, every interleaving of their
+// synchronisation operations and of the plain accesses to the fill counter.
+func harnessTTConcurrent(slots uint64) {
+	tt := NewTranspositionTable(context.Background(), slots*32).(*table)
+	verifShared(&tt.used)
+	w1, w2 := symTTWrite("w1"), symTTWrite("w2")
+	probe := board.ZobristHash(nondetU64("probe"))
+	done := make(chan bool, 3)
+	var ok1, ok2 bool
+	var rb Bound
+	var rd int
+	var rs eval.Score
+	var rm board.Move
+	var rok bool
+	go func() { ok1 = w1.do(tt); done <- true }()
+	go func() { ok2 = w2.do(tt); done <- true }()
+	go func() { rb, rd, rs, rm, rok = tt.Read(probe); done <- true }()
+	<-done
+	<-done
+	<-done
+	verifReach("tt-concurrent")
+	if rok {
+		verifAssert((probe == w1.hash && w1.matches(rb, rd, rs, rm)) || (probe == w2.hash && w2.matches(rb, rd, rs, rm)), "a concurrent lookup returns the payload of one single store for that hash, never a mixture")
+	}
+	same := uint64(w1.hash)&tt.mask == uint64(w2.hash)&tt.mask
+	if !same {
+		verifAssert(ok1 && ok2, "stores into different empty slots both succeed")
+	} else {
+		verifAssert(ok1 || ok2, "at least one of two competing stores succeeds")
+		// the surviving entry is one of no smaller replacement value than the other, unless the other lost the race as the first writer
+		b, d, s, m, ok := tt.Read(w2.hash)
+		if ok && w1.hash == w2.hash && refVal(w1) > refVal(w2) {
+			verifAssert(w1.matches(b, d, s, m), "a store never replaces an entry of greater replacement value")
+		}
+		_ = b
+		_ = d
+		_ = s
+		_ = m
+	}
+	occupied := 1
+	if !same {
+		occupied = 2
+	}
+	verifAssert(tt.Used() == float64(occupied)/float64(slots), "at quiescence the fill fraction counts every occupied slot exactly once")
+}
+
+func Harness_C17_Concurrent1() { harnessTTConcurrent(1) }
+func Harness_C17_Concurrent2() { harnessTTConcurrent(2) }
